@@ -292,6 +292,24 @@ where
                     if transformer_info.when_to_insert == InsertTransformer::Lazily {
                         continue;
                     }
+                    // The conversion of a concrete error into a `pavex::Error` has no consumer
+                    // of its own: it is there for the error observers, or for the error handler
+                    // registered against it (if the handler works with `pavex::Error`).
+                    // It is registered against the scope of every middleware that wraps a route
+                    // with error observers, but the same middleware may also wrap a route that
+                    // was registered *before* those observers: no observer is invoked from the
+                    // call graphs of that route, and the conversion would be left dangling.
+                    if error_observer_ids.is_empty()
+                        && component_db
+                            .transformer_ids(*transformer_id)
+                            .is_none_or(|ids| ids.is_empty())
+                        && component_db
+                            .hydrated_component(*transformer_id, computation_db)
+                            .output_type()
+                            == Some(&component_db.pavex_error)
+                    {
+                        continue;
+                    }
                     // Not all transformers might be relevant to this `CallGraph`, we need to take their scope into account.
                     let transformer_scope_id = component_db.scope_id(*transformer_id);
                     if root_scope_id
